@@ -6,6 +6,7 @@ Generators construct, they never parse: the TLA+ side sees `to_value()`, the
 implementation sees `render()`, both derived from the same abstract object.
 """
 import json
+import re
 from xml.sax.saxutils import quoteattr
 
 # ---------------------------------------------------------------- expressions
@@ -76,7 +77,9 @@ def bexpr_uses_only_in(e):
 # ---------------------------------------------------------------- executable content
 def log(label, e=None): return {"op": "log", "label": label, "e": e if e is not None else lit(0)}
 def raise_(ev): return {"op": "raise", "ev": ev.split(".") if isinstance(ev, str) else list(ev)}
-def send(ev): return {"op": "send", "ev": ev.split(".") if isinstance(ev, str) else list(ev)}
+def send(ev, delay=0):
+    """<send> to the session's own external queue; delay in ms (0: immediately)"""
+    return {"op": "send", "ev": ev.split(".") if isinstance(ev, str) else list(ev), "delay": int(delay)}
 def assign(v, e): return {"op": "assign", "var": v, "e": e}
 def if_(*arms): return {"op": "if", "arms": [{"cond": c, "body": list(b)} for c, b in arms]}
 def fault(kind): return {"op": "fault", "kind": kind}
@@ -294,6 +297,10 @@ class Chart:
                           "tgt": [self.sid(self.resolve(x)) for x in t.tgt]})
         return {"id": self.cid, "states": states, "trans": trans, "tags": self.tags}
 
+    def max_delay(self):
+        """largest delay (ms) of a <send> in the chart, 0 if none is delayed"""
+        return max([int(x) for x in re.findall(r'"delay": (\d+)', json.dumps(self.to_value()))] + [0])
+
     # --- which datamodels can express this chart
     def needs_dm(self):
         if self.vars:
@@ -345,7 +352,10 @@ class Chart:
             elif o == "raise":
                 out.append('%s<raise event=%s/>' % (p, quoteattr(".".join(op["ev"]))))
             elif o == "send":
-                out.append('%s<send event=%s/>' % (p, quoteattr(".".join(op["ev"]))))
+                if op.get("delay", 0):
+                    out.append('%s<send event=%s delay="%dms"/>' % (p, quoteattr(".".join(op["ev"])), op["delay"]))
+                else:
+                    out.append('%s<send event=%s/>' % (p, quoteattr(".".join(op["ev"]))))
             elif o == "assign":
                 out.append('%s<assign location=%s expr=%s/>' % (p, quoteattr(op["var"]),
                                                                  quoteattr(render_iexpr(op["e"], dm))))
